@@ -580,6 +580,104 @@ def run_history(case, d):
     return problems
 
 
+DIR_NAMES = ["plain", "out[1]", "q*", "x?y", "sp ace", "[ab]", "a{b}", "dot.d"]
+DIR_DECOYS = {"out[1]": "out1", "q*": "qq", "x?y": "xzy", "[ab]": "a", "sp ace": "sp_ace", "a{b}": "ab", "dot.d": "dotxd", "plain": "plain2"}
+
+
+def run_dirmode(case, d):
+    """Directory mode of the command: main([dir_a, dir_b]) with directory names that contain
+    characters special to glob / regex / shells, with and without a look-alike sibling directory."""
+    import contextlib
+    import io as _io2
+
+    from vc2_conformance.scripts.vc2_picture_compare import main
+
+    name, decoy, differ = case["name"], case["decoy"], case["differ"]
+    root = os.path.join(d, "dirmode")
+    shutil.rmtree(root, ignore_errors=True)
+    os.makedirs(root)
+    geom = GEOMETRIES[5]
+    pcm = geom[3]
+    plain = plain_vp(geom, 255, 255)
+    dims = ref_dims(plain, pcm)
+    dir_a = os.path.join(root, "ref")
+    dir_b = os.path.join(root, name)
+    os.makedirs(dir_a)
+    os.makedirs(dir_b)
+    pics = [make_picture("index", dims, n) for n in range(2)]
+    for n, pic in enumerate(pics):
+        _write_real(pic, plain, pcm, os.path.join(dir_a, "pic_%d.raw" % n))
+        pb = {c: [list(r) for r in pic[c]] for c in COMPONENTS}
+        pb["pic_num"] = n
+        if differ and n == 1:
+            pb["Y"][0][0] ^= 1
+        _write_real(pb, plain, pcm, os.path.join(dir_b, "pic_%d.raw" % n))
+    if decoy:
+        dd = os.path.join(root, DIR_DECOYS[name])
+        os.makedirs(dd)
+        for n, pic in enumerate(pics):
+            _write_real(pic, plain, pcm, os.path.join(dd, "pic_%d.raw" % n))
+    problems = []
+    for args in ([dir_a, dir_b], [dir_b, dir_a]):
+        out, err = _io2.StringIO(), _io2.StringIO()
+        try:
+            with contextlib.redirect_stdout(out), contextlib.redirect_stderr(err):
+                code = main(args)
+        except SystemExit as e:
+            code = "SystemExit(%r): %s" % (e.code, err.getvalue().strip()[:100])
+        except Exception as e:  # noqa
+            code = "%s: %s" % (type(e).__name__, e)
+        want = 4 if differ else 0
+        summary = "Summary: %d identical, %d different" % ((1, 1) if differ else (2, 0))
+        if code != want or summary not in out.getvalue():
+            problems.append("directories %r: exit %r, output ends %r; expected exit %d and %r" % ([os.path.basename(a) for a in args], code, out.getvalue().strip().split("\n")[-1][:80], want, summary))
+            break
+    shutil.rmtree(root, ignore_errors=True)
+    return problems
+
+
+def dirmode_cases():
+    return [{"kind": "dirmode", "name": n, "decoy": dc, "differ": df} for n in DIR_NAMES for dc in (False, True) for df in (False, True)]
+
+
+def run_rewrite(case, d):
+    """compare(a, b); then b is replaced at the same path by another picture of the same size
+    with its modification time preserved (cp -p, rsync -t, tar); compare(a, b) again."""
+    from vc2_conformance.scripts.vc2_picture_compare import compare_pictures
+
+    geom = GEOMETRIES[case["geom"]]
+    pcm = geom[3]
+    plain = plain_vp(geom, case["exc"], case["exc"])
+    dims = ref_dims(plain, pcm)
+    pic = make_picture("index", dims, 3)
+    other = {c: [list(r) for r in pic[c]] for c in COMPONENTS}
+    other["pic_num"] = 3
+    other[case["comp"]][-1][-1] ^= 1
+    a = os.path.join(d, "rw_a.raw")
+    b = os.path.join(d, "rw_b.raw")
+    seq = [pic, other] if case["order"] == "same-then-different" else [other, pic]
+    problems = []
+    _write_real(pic, plain, pcm, a)
+    _write_real(seq[0], plain, pcm, b)
+    st = os.stat(b)
+    for step, cur in enumerate(seq):
+        if step == 1:
+            with open(b, "r+b") as f:  # same path, same size, new contents
+                f.write(ref_encode(cur, dims))
+            os.utime(b, ns=(st.st_atime_ns, st.st_mtime_ns))
+        for args in ((a, b), (b, a)):
+            msg, code = compare_pictures(*args)
+            want = 0 if cur is pic else 4
+            if code != want:
+                problems.append("step %d (%s): compare_pictures exit %r, expected %d (%r)" % (step, case["order"], code, want, msg[:80]))
+                return problems
+    return problems
+
+
+def rewrite_cases():
+    return [{"kind": "rewrite", "geom": g, "exc": e, "comp": c, "order": o} for g in (1, 5, 7) for e in (255, 1023) for c in COMPONENTS for o in ("same-then-different", "different-then-same")]
+
+
 def history_cases(quick):
     n = len(HISTORY_FORMATS)
     out = []
@@ -588,10 +686,15 @@ def history_cases(quick):
             for fs in itertools.product(range(n), repeat=k):
                 if all(fs[j] != fs[j + 1] for j in range(k - 1)):
                     out.append({"kind": "history", "reuse": reuse, "formats": list(fs)})
-    return out
+    return out + dirmode_cases() + rewrite_cases()
 
 
 def run_case(case, d, a_cache=None):
+    if case["kind"] in ("dirmode", "rewrite"):
+        if a_cache is not None:
+            a_cache.clear()
+        problems = run_dirmode(case, d) if case["kind"] == "dirmode" else run_rewrite(case, d)
+        return problems, case["kind"]
     if case["kind"] == "history":
         if a_cache is not None:
             a_cache.clear()
@@ -819,6 +922,8 @@ def run(ctx):
                 % ((12, "1,8,10,64") if ctx.quick else (16, "1,2,7,8,9,10,16,17,31,32,33,63,64")),
             },
             "difference_mask": "every 'none' and sample edit of the index pattern at depth pairs %r repeated with a difference mask requested (the same report and exit status are required; the mask's contents are not judged)" % (MASK_DEPTHS,),
+            "directory_mode": "%d runs of main([dir_a, dir_b]) (both orders): directory names %r, with / without a look-alike sibling directory, identical / one differing picture" % (len(dirmode_cases()), DIR_NAMES),
+            "rewrite_histories": "%d histories: compare, replace one file in place (same size, modification time preserved), compare again" % len(rewrite_cases()),
             "shared_video_parameters_histories": "%d histories: 2 and 3 consecutive different formats from %r written / read / compared through ONE VideoParameters object edited in place (or the object returned by read_metadata, edited in place)" % (len(history_cases(ctx.quick)), HISTORY_FORMATS),
             "space_size": expected,
             "groups": len(groups),
